@@ -473,6 +473,16 @@ def oracle_compose(m: onnx.ModelProto, form: str, seed: int) -> list[tuple[str, 
             elif form == "chained":
                 if not float_outs or not float_ins:
                     return fails
+                # chaining is only a legal call if the linked output's declared type fits the inputs
+                _, od = L.type_json(next(o for o in m.graph.output if o.name == float_outs[0]).type)["t"]
+                for i in m.graph.input:
+                    if i.name in float_ins:
+                        _, idims = L.type_json(i.type)["t"]
+                        if od is not None and idims is not None and (
+                            len(od) != len(idims)
+                            or any(isinstance(a, int) and isinstance(b, int) and a != b for a, b in zip(od, idims))
+                        ):
+                            return fails
                 f = inline(m)
                 r1 = apply(f, A, npos, omit)
                 d1 = direct(vals1, omit)
